@@ -63,7 +63,7 @@ def swarm_trace(rng: random.Random, direct: bool) -> tuple[list[dict], dict]:
         evs.append({"e": "step" if was_up else "setup", "np": np_, "hist": [_enc(x) for x in los],
                     "start": int(s._previous_batch_index_start),  # noqa: SLF001
                     "best": [_enc(x) for x in s._best_position_losses],  # noqa: SLF001
-                    "g": int(s._global_best_particle_id) + 1, "bp": bp,  # noqa: SLF001
+                    "g": int(s._global_best_particle_id) + 1, "bp": bp, "ctx": "direct", "ownwin": True,  # noqa: SLF001
                     "histsame": bool(np.array_equal(kp, pts) and np.array_equal(kl, los))})
         meta["script"].append(["sample"])
         # the calibrator appends the batch with its losses right after the call; a direct caller may append less, or nothing
@@ -80,6 +80,63 @@ def swarm_trace(rng: random.Random, direct: bool) -> tuple[list[dict], dict]:
     return evs, meta
 
 
+def calibrator_trace(rng: random.Random) -> tuple[list[dict], dict] | None:
+    """the same events recorded inside a real Calibrator.calibrate() with the swarm among other samplers (losses as dense ranks)"""
+    from black_it.calibrator import Calibrator
+    from black_it.loss_functions.minkowski import MinkowskiLoss
+    from black_it.samplers.halton import HaltonSampler
+    from black_it.samplers.particle_swarm import ParticleSwarmSampler
+    from black_it.samplers.random_uniform import RandomUniformSampler
+
+    raw: list[dict] = []
+
+    class LoggedSwarm(ParticleSwarmSampler):
+        _last = None
+
+        def sample(self, search_space, existing_points, existing_losses):
+            was_up = self.is_set_up
+            before = self._previous_batch_index_start
+            out = super().sample(search_space, existing_points, existing_losses)
+            own = True
+            bp = True
+            if was_up:
+                own = bool(np.array_equal(existing_points[before:before + self.batch_size], self._last))
+                bp = bool(np.array_equal(self._best_point, existing_points[int(np.argmin(existing_losses))]))
+            raw.append({"e": "step" if was_up else "setup", "np": self.batch_size, "hist": [float(x) for x in existing_losses],
+                        "start": int(self._previous_batch_index_start), "best": [float(x) for x in self._best_position_losses],
+                        "g": int(self._global_best_particle_id) + 1, "bp": bp, "ctx": "calibrator", "ownwin": own})
+            self._last = np.array(out, copy=True)
+            return out
+
+    np_ = rng.randint(1, 3)
+    levels = rng.choice([2, 3, 5])
+
+    def model(theta, N, seed):  # noqa: N803, ARG001
+        return np.full((N, 1), 1.0 + float(int(abs(theta[0]) * 7) % levels))      # few distinct losses (ties), never a perfect fit (no early stop)
+
+    others = [HaltonSampler(batch_size=rng.randint(1, 3), random_state=rng.randrange(2**31)) for _ in range(rng.randint(0, 1))]
+    others += [RandomUniformSampler(batch_size=rng.randint(1, 3), random_state=rng.randrange(2**31)) for _ in range(rng.randint(0, 2))]
+    seed = rng.randrange(2**31)
+    pso = LoggedSwarm(batch_size=np_, random_state=seed, global_minimum_across_samplers=rng.random() < 0.5)
+    samplers = [*others]
+    samplers.insert(rng.randint(0, len(samplers)), pso)
+    nb = len(samplers) * rng.randint(2, 4) + rng.randint(0, len(samplers) - 1)
+    meta = {"np": np_, "seed": seed, "samplers": [type(x).__name__ for x in samplers], "batches": nb, "levels": levels, "calibrator": True}
+    with quiet():
+        cal = Calibrator(loss_function=MinkowskiLoss(), real_data=np.zeros((5, 1)), model=model,
+                         parameters_bounds=[[0.0, -1.0], [3.0, 1.0]], parameters_precision=[0.01, 0.5], ensemble_size=1,
+                         samplers=samplers, random_state=rng.randrange(2**31), verbose=False, saving_folder=None, n_jobs=1)
+        cal.calibrate(nb)
+    vals = sorted({x for e in raw for x in e["hist"] + e["best"] if np.isfinite(x)})
+    if len(vals) >= INF:
+        return None
+    rk = {v: i for i, v in enumerate(vals)}
+    for e in raw:
+        e["hist"] = [rk[x] if np.isfinite(x) else INF for x in e["hist"]]
+        e["best"] = [rk[x] if np.isfinite(x) else INF for x in e["best"]]
+    return raw, meta
+
+
 def run_growth(chk, tier: str, rng: random.Random) -> None:
     """model-check Swarm.tla, validate real traces; a rejection is reported as a note (the bookkeeping of the swarm is not one of
     the listed properties), except a modified history, which is the no-modification clause of C16"""
@@ -94,6 +151,11 @@ def run_growth(chk, tier: str, rng: random.Random) -> None:
         evs, meta = swarm_trace(rng, direct=i % 3 == 0)
         traces.append(evs)
         metas.append(meta)
+    for _ in range(60 if tier == "quick" else 600):
+        got = calibrator_trace(rng)
+        if got:
+            traces.append(got[0])
+            metas.append(got[1])
     res = tlc.validate_parallel("SwarmTrace", "SwarmTrace.cfg", [[{k: v for k, v in e.items() if k != "histsame"} for e in t] for t in traces],
                                 parts=4)
     chk.add_validation(res)
